@@ -269,4 +269,37 @@ theorem string_valued_ops :
     ["str_upper", "str_lower", "str_strip", "str_replace_all", "str_slice"].all (fun a => sigsAll a (fun s => famOf s.ret == .string)) = true := by
   decide +kernel
 
+
+/-! ### temporal arithmetic (decision table over the regenerated catalogue) -/
+
+def isTemporal (t : Dtype) : Bool := t == .date || t == .datetime || t == .duration || t == .time
+
+/-- a point in time plus a duration is a point in time (in either operand order); durations add up to a duration -/
+def temporalAdd : List Dtype → Option Dtype
+  | [.duration, .duration] => some .duration
+  | [.datetime, .duration] => some .datetime
+  | [.duration, .datetime] => some .datetime
+  | [.date, .duration] => some .date
+  | [.duration, .date] => some .date
+  | _ => none
+
+/-- the difference of two points in time is a duration; a point in time minus a duration is a point in time -/
+def temporalSub : List Dtype → Option Dtype
+  | [.datetime, .datetime] => some .duration
+  | [.date, .date] => some .duration
+  | [.duration, .duration] => some .duration
+  | [.datetime, .duration] => some .datetime
+  | [.date, .duration] => some .date
+  | _ => none
+
+/-- every temporal overload of `+` / `-` in the catalogue has the return type of the table above -/
+theorem temporal_add_sigs : sigsAll "add" (fun s => !(s.params.any isTemporal) || temporalAdd s.params == some s.ret) = true := by decide +kernel
+theorem temporal_sub_sigs : sigsAll "sub" (fun s => !(s.params.any isTemporal) || temporalSub s.params == some s.ret) = true := by decide +kernel
+
+/-- and the catalogue does declare them (the statement above is not vacuous) -/
+theorem temporal_sigs_present :
+    (match findOp "add" with | some d => d.sigs.any (fun s => s.params == [.duration, .datetime]) | none => false) = true ∧
+    (match findOp "sub" with | some d => d.sigs.any (fun s => s.params == [.datetime, .datetime]) | none => false) = true := by
+  constructor <;> decide +kernel
+
 end Pdt.C12
